@@ -20,6 +20,7 @@ type SV struct {
 	isNil bool
 	// absolute-index bound variable: T == (- absBase absOff)
 	absBase, absOff string
+	absConst        int64
 }
 
 type SpecEnv struct {
@@ -225,41 +226,100 @@ func (e *Enc) evalSpec(s *Spec, env *SpecEnv) SV {
 		r.T = fmt.Sprintf("(ite %s %s %s)", c, a.T, b.T)
 		return r
 	case SQuant:
-		ne := env.child()
-		var bs []string
-		e.qn++
-		for _, v := range s.Vars {
-			n := fmt.Sprintf("q%d!%s", e.qn, v)
-			ne.names[v] = intSV(n)
-			bs = append(bs, "("+n+" Int)")
-		}
 		// Absolute-index form: when a bound variable k is used as a slice index
 		// a[k], quantify over the absolute position j = off(a)+k so that the
-		// element term is (select row j) -- a clean E-matching pattern.
+		// element term is (select row j) -- a clean E-matching pattern.  When a
+		// single bound variable indexes several slices, the (equivalent) formula
+		// is rendered once per slice and the renderings are conjoined, so that a
+		// ground element of either slice triggers an instance.
+		probe := env.child()
 		for _, v := range s.Vars {
-			base := findIndexBase(s.A, v)
-			if base == nil {
-				continue
-			}
-			nf := len(e.fatal)
-			bv := e.evalSpec(base, ne)
-			if len(e.fatal) > nf || bv.S != sliceSort || bv.a != nil {
-				e.fatal = e.fatal[:nf]
-				continue
-			}
-			n := ne.names[v].T
-			off := "(soff " + bv.T + ")"
-			sv := intSV(fmt.Sprintf("(- %s %s)", n, off))
-			sv.absBase, sv.absOff = n, off
-			ne.names[v] = sv
+			probe.names[v] = intSV("q!probe")
 		}
-		body := e.evalBool(s.A, ne)
-		return boolSV(fmt.Sprintf("(%s (%s) %s)", s.Op, strings.Join(bs, " "), body))
+		type absCand struct {
+			off string
+			c   int64
+		}
+		cands := map[string][]absCand{} // var -> distinct (offset term, constant)
+		for _, v := range s.Vars {
+			seen := map[absCand]bool{}
+			for _, ib := range findIndexBases(s.A, v, nil) {
+				nf := len(e.fatal)
+				bv := e.evalSpec(ib.base, probe)
+				if len(e.fatal) > nf || bv.S != sliceSort || bv.a != nil || strings.Contains(bv.T, "q!probe") {
+					e.fatal = e.fatal[:nf]
+					continue
+				}
+				ac := absCand{"(soff " + bv.T + ")", ib.c}
+				if !seen[ac] {
+					seen[ac] = true
+					cands[v] = append(cands[v], ac)
+				}
+			}
+		}
+		multi := ""
+		for _, v := range s.Vars {
+			if len(cands[v]) > 1 {
+				if multi != "" || len(cands[v]) > 3 {
+					multi = "-"
+					break
+				}
+				multi = v
+			}
+		}
+		render := func(choice map[string]absCand) string {
+			ne := env.child()
+			var bs []string
+			e.qn++
+			for _, v := range s.Vars {
+				n := fmt.Sprintf("q%d!%s", e.qn, v)
+				bs = append(bs, "("+n+" Int)")
+				if ac, ok := choice[v]; ok {
+					sv := intSV(fmt.Sprintf("(- %s %s)", n, ac.off))
+					if ac.c != 0 {
+						sv = intSV(fmt.Sprintf("(- (- %s %s) %s)", n, ac.off, smtIntI(ac.c)))
+					}
+					sv.absBase, sv.absOff, sv.absConst = n, ac.off, ac.c
+					ne.names[v] = sv
+				} else {
+					ne.names[v] = intSV(n)
+				}
+			}
+			body := e.evalBool(s.A, ne)
+			return fmt.Sprintf("(%s (%s) %s)", s.Op, strings.Join(bs, " "), body)
+		}
+		choice := map[string]absCand{}
+		for _, v := range s.Vars {
+			if len(cands[v]) > 0 {
+				choice[v] = cands[v][0]
+			}
+		}
+		if multi == "" || multi == "-" || s.Op != "forall" {
+			return boolSV(render(choice))
+		}
+		var parts []string
+		for _, ac := range cands[multi] {
+			choice[multi] = ac
+			parts = append(parts, render(choice))
+		}
+		return boolSV(and(parts...))
 	case SField:
 		return e.evalField(s, env)
 	case SIndex:
 		a := e.evalSpec(s.A, env)
+		// a[v+c] where v is an absolute-index bound variable registered for (off(a), c)
+		if v, c, ok := varPlusConst(s.B); ok && a.S == sliceSort {
+			if bv, isB := env.names[v]; isB && bv.absBase != "" && bv.absOff == "(soff "+a.T+")" && bv.absConst == c {
+				j := bv
+				j.absConst = 0
+				j.T = fmt.Sprintf("(- %s %s)", bv.absBase, bv.absOff)
+				return e.indexSV(a, j, env, s)
+			}
+		}
 		i := e.evalSpec(s.B, env)
+		if i.absConst != 0 {
+			i.absBase = ""
+		}
 		return e.indexSV(a, i, env, s)
 	case SSlice:
 		a := e.evalSpec(s.A, env)
@@ -736,6 +796,56 @@ func (e *Enc) declareRec(sf *SpecFunc) {
 	appL := fmt.Sprintf("(%s_L %s)", sf.Name, strings.Join(args, " "))
 	e.recAxioms = append(e.recAxioms, fmt.Sprintf("(assert (forall (%s) (! (= %s %s) :pattern (%s))))", strings.Join(binders, " "), app, body.T, app))
 	e.recAxioms = append(e.recAxioms, fmt.Sprintf("(assert (forall (%s) (! (= %s %s) :pattern (%s))))", strings.Join(binders, " "), appL, app, app))
+}
+
+type indexBase struct {
+	base *Spec
+	c    int64
+}
+
+// varPlusConst recognises `v`, `v + c` and `v - c`.
+func varPlusConst(s *Spec) (string, int64, bool) {
+	if s == nil {
+		return "", 0, false
+	}
+	if s.Kind == SName {
+		return s.Name, 0, true
+	}
+	if s.Kind == SBinary && (s.Op == "+" || s.Op == "-") && s.A.Kind == SName && s.B.Kind == SInt && s.B.Int.IsInt64() {
+		c := s.B.Int.Int64()
+		if s.Op == "-" {
+			c = -c
+		}
+		return s.A.Name, c, true
+	}
+	return "", 0, false
+}
+
+// findIndexBases collects the base expressions of every a[v] / a[v+c] in s.
+func findIndexBases(s *Spec, v string, acc []indexBase) []indexBase {
+	if s == nil {
+		return acc
+	}
+	switch s.Kind {
+	case SQuant:
+		for _, x := range s.Vars {
+			if x == v {
+				return acc
+			}
+		}
+		return findIndexBases(s.A, v, acc)
+	case SIndex:
+		if n, c, ok := varPlusConst(s.B); ok && n == v {
+			acc = append(acc, indexBase{s.A, c})
+		}
+	}
+	for _, c := range []*Spec{s.A, s.B, s.C} {
+		acc = findIndexBases(c, v, acc)
+	}
+	for _, c := range s.Args {
+		acc = findIndexBases(c, v, acc)
+	}
+	return acc
 }
 
 // findIndexBase returns the base expression of the first a[v] in s where v is
